@@ -3,5 +3,5 @@ CONSTANTS
   Confs <- AllConfs
   Factors <- MCFactors
   ClampFixed = TRUE
-INVARIANTS TypeOK ExactEnd NoOvershoot Contiguous CleanAttempt RowsOrdered AllRequested
+INVARIANTS TypeOK MaxStepRespected ExactEnd NoOvershoot Contiguous CleanAttempt RowsOrdered AllRequested
 PROPERTY Terminates
